@@ -1133,5 +1133,5 @@ func c09DefaultsExplicit(c *Ctx) {
 			c.Check(rule, fmt.Sprintf("%s|output#%d|not-omitted-when-zero", fnName(fn), n), len(bad) == 0, ci.Pos(), fmt.Sprintf("printed only under a zero test of: %v (each has a non-zero parse default)", bad))
 		}
 	}
-	c.Floor(rule, 10)
+	c.Floor(rule, 3)
 }
